@@ -83,11 +83,14 @@ fn dyn_bytes(enc: Enc, entries: &[(u64, u64)]) -> Vec<u8> {
 pub fn gen_object(rng: &mut Rng, enc: Enc, o: &GenOpts) -> (ObjSpec, ObjModel) {
     let mut spec = ObjSpec::new(enc);
     let mut m = ObjModel::default();
-    spec.e_type = [1u16, 2, 3, 4][rng.usize_below(4)];
-    spec.e_machine = [3u16, 40, 62, 183, 243, 8, 20][rng.usize_below(7)];
+    // the identity fields of the header carry named constants: common values, any exported constant of the family,
+    // the ones the crate's code mentions, or anything
+    spec.e_type = crate::abi_table::pick(rng, "ET_", &[1, 2, 3, 4], 16) as u16;
+    spec.e_machine = crate::abi_table::pick(rng, "EM_", &[3, 40, 62, 183, 243, 8, 20], 16) as u16;
     spec.e_flags = rng.next_u32();
     spec.e_entry = rng.boundary(if enc.c64 { 64 } else { 32 });
-    spec.osabi = [0u8, 3, 9][rng.usize_below(3)];
+    spec.osabi = crate::abi_table::pick(rng, "ELFOSABI_", &[0, 3, 9], 8) as u8;
+    spec.abiversion = if rng.chance(3, 4) { 0 } else { rng.next_u64() as u8 };
     spec.max_gap = [0usize, 0, 3, 16][rng.usize_below(4)];
     spec.trailing = if rng.chance(1, 4) { rng.usize_below(16) } else { 0 };
     let mut order = [Part::Phdrs, Part::Bodies, Part::Shdrs];
@@ -384,6 +387,13 @@ pub fn gen_object(rng: &mut Rng, enc: Enc, o: &GenOpts) -> (ObjSpec, ObjModel) {
         spec.secs[i].name = name;
     }
 
+    // a section name ending in a boundary byte now and then
+    if !spec.secs.is_empty() && rng.chance(1, 8) {
+        let i = rng.usize_below(spec.secs.len());
+        let b = *rng.pick(&[0x01u8, 0x01, 0x7f, 0x80, 0xff]);
+        spec.secs[i].name.push(b);
+    }
+
     // section-name games
     if o.name_games {
         let n = spec.secs.len();
@@ -396,7 +406,8 @@ pub fn gen_object(rng: &mut Rng, enc: Enc, o: &GenOpts) -> (ObjSpec, ObjModel) {
                     2 if !other.is_empty() => other[1..].to_vec(),                  // proper suffix
                     3 => { let mut v = other; v.push(b'x'); v }                     // extension
                     4 => Vec::new(),                                                // empty
-                    5 => vec![b'.', 0xff, 0xfe, b'a'],                              // non-UTF-8
+                    5 if rng.bool() => vec![b'.', 0xff, 0xfe, b'a'],                // non-UTF-8
+                    5 => { let mut v = other; v.push(*rng.pick(&[0x01u8, 0x01, 0x7f, 0x80, 0xff])); v } // boundary byte before the NUL
                     _ => { let mut v = vec![b'.']; v.extend_from_slice(&other); v }
                 };
             }
